@@ -44,6 +44,7 @@ Classes ==
        Cls("data_to_unreach_garbage", "data", TRUE, "na", "na", "na"),
        Cls("data_to_unreach_wrongtypes", "data", TRUE, "na", "na", "na"),
        Cls("data_to_unreach_valid", "data", TRUE, "na", "na", "na"),
+       Cls("data_to_unreach_for_live_socket", "data", TRUE, "na", "na", "na"),
        Cls("data_to_unreach_null", "data", TRUE, "na", "na", "na"),
        Cls("data_to_unreach_array", "data", TRUE, "na", "na", "na"),
        Cls("data_to_unreach_emptyobj", "data", TRUE, "na", "na", "na"),
